@@ -2,7 +2,8 @@
 //! A schedule is a list of (thread, kind, key): kind 0 = start a request for `key` on `thread`
 //! (runs the first critical section; on a miss also the unlocked generation, then parks in the
 //! between-sections hook), kind 1 = "generate" (already happened, unobservable: no-op),
-//! kind 2 = let the parked thread run its second critical section and return.
+//! kind 2 = let the parked thread run its second critical section and return,
+//! kind 3 = the parked request dies between its critical sections (the hook panics: no lock is held there).
 //! After every step the cache is snapshotted.  Row per step:
 //!   [ret_flag, returned plan's symbol count or 0, |order|, order..., |plans|, sorted keys...]
 use raptorq::verif_hooks::encoder as enc;
@@ -16,11 +17,13 @@ enum Event {
     // the returned plan is handed to the driver, which keeps it alive until the end of the trace
     // (callers hold on to plans: an eviction policy must not depend on that)
     Done(u16, std::sync::Arc<raptorq::SourceBlockEncodingPlan>),
+    Aborted,
 }
 
 struct Gate {
     open: Mutex<bool>,
     cv: Condvar,
+    abort: std::sync::atomic::AtomicBool,
 }
 
 thread_local! {
@@ -36,6 +39,10 @@ fn hook(_k: u16) {
                 open = gate.cv.wait(open).unwrap();
             }
             *open = false;
+            drop(open);
+            if gate.abort.swap(false, std::sync::atomic::Ordering::SeqCst) {
+                panic!("scheduled abort of a request between its critical sections");
+            }
         }
     });
 }
@@ -53,13 +60,15 @@ struct Worker {
 fn spawn_worker() -> Worker {
     let (cmd_tx, cmd_rx) = channel::<u16>();
     let (ev_tx, ev_rx) = channel::<Event>();
-    let gate = Arc::new(Gate { open: Mutex::new(false), cv: Condvar::new() });
+    let gate = Arc::new(Gate { open: Mutex::new(false), cv: Condvar::new(), abort: std::sync::atomic::AtomicBool::new(false) });
     let g2 = gate.clone();
     std::thread::spawn(move || {
         SLOT.with(|s| *s.borrow_mut() = Some((g2, ev_tx.clone())));
         while let Ok(k) = cmd_rx.recv() {
-            let plan = enc::get_or_generate_plan(k);
-            ev_tx.send(Event::Done(enc::plan_symbol_count(&plan), plan)).unwrap();
+            match std::panic::catch_unwind(|| enc::get_or_generate_plan(k)) {
+                Ok(plan) => ev_tx.send(Event::Done(enc::plan_symbol_count(&plan), plan)).unwrap(),
+                Err(_) => ev_tx.send(Event::Aborted).unwrap(),
+            }
         }
     });
     Worker { cmd: cmd_tx, events: ev_rx, gate, parked: false, generated: false }
@@ -97,6 +106,22 @@ pub fn trace(a: &[u64]) -> Vec<u64> {
                         row[0] = 1;
                         row[1] = c as u64;
                     }
+                    Event::Aborted => panic!("a request died in its first critical section"),
+                }
+            }
+            3 if w.parked => {
+                w.gate.abort.store(true, std::sync::atomic::Ordering::SeqCst);
+                {
+                    let mut open = w.gate.open.lock().unwrap();
+                    *open = true;
+                    w.gate.cv.notify_all();
+                }
+                match w.events.recv().unwrap() {
+                    Event::Aborted => {
+                        w.parked = false;
+                        w.generated = false;
+                    }
+                    _ => panic!("a scheduled abort did not abort the request"),
                 }
             }
             1 if w.parked => w.generated = true,
@@ -115,6 +140,7 @@ pub fn trace(a: &[u64]) -> Vec<u64> {
                         w.generated = false;
                     }
                     Event::AtHook => panic!("thread reached the hook twice in one request"),
+                    Event::Aborted => panic!("a request died in its second critical section"),
                 }
             }
             _ => {}
